@@ -362,13 +362,40 @@ func oneRealtimeRound(id int, scratch string, holdPeriods, load, observers int, 
 		rec := mk("recover", true)
 		e := rtEvent{Op: "Recover", T: now()}
 		e.Judged = rec.IsStale()
-		_ = rec.ReleaseIfStale(context.Background())
-		fresh := mk("fresh", false)
-		err := fresh.TryLock(context.Background())
-		e.Result = hk.Kind(err)
-		if err == nil {
-			_ = fresh.Unlock(context.Background())
+		// the ways of taking a dead holder's lock over, in rotation: an explicit ReleaseIfStale followed by each of the three
+		// acquire calls, and the acquire of an overriding lock object (which releases the stale lock itself)
+		var err error
+		bounded, cancelB := context.WithTimeout(context.Background(), 3*time.Second)
+		switch id % 4 {
+		case 0:
+			e.Note = "ReleaseIfStale+TryLock"
+			_ = rec.ReleaseIfStale(context.Background())
+			fresh := mk("fresh", false)
+			if err = fresh.TryLock(bounded); err == nil {
+				_ = fresh.Unlock(context.Background())
+			}
+		case 1:
+			e.Note = "ReleaseIfStale+Lock"
+			_ = rec.ReleaseIfStale(context.Background())
+			fresh := mk("fresh", false)
+			if err = fresh.Lock(bounded); err == nil {
+				_ = fresh.Unlock(context.Background())
+			}
+		case 2:
+			e.Note = "ReleaseIfStale+LockWithTimeout"
+			_ = rec.ReleaseIfStale(context.Background())
+			fresh := mk("fresh", false)
+			if err = fresh.LockWithTimeout(context.Background(), 3*time.Second); err == nil {
+				_ = fresh.Unlock(context.Background())
+			}
+		default:
+			e.Note = "overriding LockWithTimeout"
+			if err = rec.LockWithTimeout(context.Background(), 3*time.Second); err == nil {
+				_ = rec.Unlock(context.Background())
+			}
 		}
+		cancelB()
+		e.Result = hk.Kind(err)
 		emit(e)
 	} else {
 		emit(rtEvent{Op: "Released", T: now()})
